@@ -122,7 +122,7 @@ def _case(draw, tier):
     if draw(st.integers(0, 5)) == 0:
         return {"kind": "cli", "seed": draw(st.integers(0, 2**31 - 1)), "n_spectra": draw(st.integers(120, 200)),
                 "leftover": draw(st.sampled_from(["crash", "crash", "foreign-valid", "foreign-garbage", "older-version"])),
-                "j": draw(st.integers(0, 400))}
+                "j": draw(st.integers(0, 400)), "rect": draw(st.sampled_from([False, False, True]))}
     if draw(st.integers(0, 6)) == 0:
         return {"kind": "rollup", "seed": draw(st.integers(0, 2**31 - 1)), "first": draw(st.lists(st.sampled_from(["a", "b", "c", "d"]), min_size=1, max_size=3, unique=True)),
                 "second": draw(st.lists(st.sampled_from(["a", "b", "c", "d", "e"]), min_size=1, max_size=3, unique=True)),
@@ -318,7 +318,7 @@ def pin_convert_ref(text):
     return "\n".join(out) + "\n"
 
 
-def _ragged_pin(seed, ns):
+def _ragged_pin(seed, ns, rect=False):
     rng = np.random.default_rng(seed)
     lines = ["SpecId\tLabel\tScanNr\tExpMass\tf0\tf1\tPeptide\tProteins"]
     pool = datagen.peptide_pool(rng, 80)
@@ -326,6 +326,8 @@ def _ragged_pin(seed, ns):
         for lab in (1, -1):
             good = lab == 1 and rng.random() < 0.5
             prots = [f"{'' if lab == 1 else 'decoy_'}P{int(x)}" for x in rng.integers(0, 50, int(rng.integers(1, 4)))]
+            if rect:  # an input that is already a rectangular table: the verify step has nothing to convert
+                prots = prots[:1]
             lines.append("\t".join([f"s{s}_{lab}", str(lab), str(100 + s), repr(round(500 + s * 1.5, 3)),
                                     repr(round(float(rng.normal(3.0 if good else 0.0, 1)), 5)), repr(round(float(rng.normal(0, 1)), 5)),
                                     pool[int(rng.integers(0, 80))] if lab == 1 else pool[int(rng.integers(0, 80))][::-1]] + prots))
@@ -344,8 +346,9 @@ def _cli(pin, dest):
 def _check_cli(case):
     from mokapot import mokapot as cli
 
-    text = _ragged_pin(case["seed"], case["n_spectra"])
-    exp_input = pin_convert_ref(text)
+    rect = bool(case.get("rect"))
+    text = _ragged_pin(case["seed"], case["n_spectra"], rect)
+    exp_input = text if rect else pin_convert_ref(text)
     with scratch_dir() as tmp:
         # clean reference
         cdir = tmp / "clean"
@@ -365,7 +368,7 @@ def _check_cli(case):
         left = Path(str(pin) + ".tsv")
         kind = case["leftover"]
         if kind in ("crash", "older-version"):
-            src_text = text if kind == "crash" else _ragged_pin(case["seed"] + 1, case["n_spectra"] + 20)
+            src_text = text if (kind == "crash" and not rect) else _ragged_pin(case["seed"] + 1, case["n_spectra"] + 20)
             pin.write_text(src_text)
             # the converter is patched wherever the CLI may look it up (its own namespace and the parser module)
             from mokapot.parsers import pin_to_tsv as ptmod
@@ -419,8 +422,10 @@ def _check_cli(case):
         require(set(out) == set(ref), "cli-files", f"{sorted(out)} vs {sorted(ref)}; {where}")
         for f in ref:
             require(out[f] == ref[f], "cli-result-altered", f"{f} differs from the clean-directory result; {where}")
-        require(not left.exists(), "tsv-left", f"the temporary {left.name} remains next to the input; {where}")
-    return {"nontrivial": had_left, "classes": ["cli", "leftover-" + kind], "counters": {"cli_histories": 1}}
+        if not rect:  # (a rectangular input is not converted: a stray file next to it is not this run's temporary)
+            require(not left.exists(), "tsv-left", f"the temporary {left.name} remains next to the input; {where}")
+    return {"nontrivial": had_left, "classes": ["cli", "leftover-" + kind] + (["cli-input-already-rectangular"] if rect else []),
+            "counters": {"cli_histories": 1}}
 
 
 def _make_level_files(tmp, name, seed, n):
